@@ -454,6 +454,23 @@ def run(ctx):
         ctx.evaluated()
         ctx.concurrent("crps", lambda o, e: decomp(crps_fn()(o, e))[0], sets,
                        {"kind": "concurrent", "what": "crps 4 x [40, 20000]"}, rtol=1e-12)
+    if ctx.shard == 3 % ctx.nshards:
+        r_ = np.random.default_rng(11)
+        o_ = np.round(r_.normal(size=60), 3)
+        e_ = np.round(r_.normal(size=(60, 900)), 3)
+        here = decomp(crps_fn()(o_, e_))[0]
+        ctx.evaluated()
+        ctx.small_stack("crps", "from hydrodiy.stat import metrics",
+                        """
+                        r_ = np.random.default_rng(11)
+                        o_ = np.round(r_.normal(size=60), 3)
+                        e_ = np.round(r_.normal(size=(60, 900)), 3)
+                        d = metrics.crps(o_, e_)[0]
+                        d = np.asarray(getattr(d, "values", d), dtype=float).ravel()
+                        for i, v in enumerate(d[:5]):
+                            out["c%d" % i] = float(v)
+                        """, {"c%d" % i: float(v) for i, v in enumerate(np.asarray(here)[:5])},
+                        {"kind": "smallstack", "what": "crps 60 x 900"})
     rng = ctx.rng(1)
     ncase = 400 if ctx.tier == "quick" else 10000
     for it in range(ncase):
